@@ -26,8 +26,8 @@ REQ = {
     "len(vertices) tests (shape, >= 3)": lambda s: any(t[0] == "len-of" and "vertices" in t[1] for t in s[1]),
     "duplicate vertices (np.unique)": lambda s: ("ret", "numpy.unique") in s[1],
     "coplanarity (isclose under planar_tolerance)": lambda s: ("ret", "numpy.isclose") in s[1] and {"_normal", "_vertices"} <= s[3],
-    "simple polygon (_is_simple)": lambda s: ("ret", "_is_simple") in s[1],
-    "convex position 2-D (_is_convex)": lambda s: ("ret", "_is_convex") in s[1],
+    "simple polygon (_is_simple)": lambda s: ("ret", "isect_polygon") in s[1],
+    "convex position 2-D (_is_convex)": lambda s: ("ret", "scipy.spatial.ConvexHull") in s[1],
     "convex position 3-D (ConvexHull vertex count)": lambda s: ("ret", "scipy.spatial.ConvexHull") in s[1],
 }
 POLY = ["len(vertices) tests (shape, >= 3)", "duplicate vertices (np.unique)", "coplanarity (isclose under planar_tolerance)"]
